@@ -32,6 +32,10 @@ CHECKS = {
    text='Complete over the enumerated operand-shape space: every opcode path of the decoder trie x prefix sets x all ModRM x SIB grid gives ~270k instances (one per mnemonic/size/prefix/operand-shape), each lifted by the real code and checked against the well-formedness rules written from the property text. Failures are grouped by (mnemonic, clause, site in the IR); the 315 sites failing on the pinned tree are listed as known findings, anything else is a violation.',
    note='Trusted: specs/irwf.py, z3. Register numbers inside memory operands and immediates are not varied (the IR shape does not depend on them except where the lifter inspects them). An element wider than its concatenation slot is not flagged (the property only demands tiling).',
    ref='5 C11'),
+ 'C04': dict(cat='proof', tech='contract-based: the real semantic functions and dict_to_Expr are executed on decoder instances, the returned IR is translated by the IR denotation and each output is proved equal to a hand-written IA-32 spec for ALL machine states by z3 (SMT-B)',
+   text='One obligation per (mnemonic, operand signature, output, case): 8 general registers, segment registers, CF PF AF ZF SF OF DF, memory as a whole and the control-flow outcome, for 135 integer-core mnemonics over ~37k decoder instances (register classes, addressing structures, 8/16/32 bit, 66/64 prefixes). Each is a z3 validity query over a fully symbolic state (registers, flags, memory array). Architecturally undefined flags generate no obligation; "count = 0 leaves flags unchanged" does. 868 obligations fail on the pinned tree and are listed as known findings (AF formula, shift/rotate flags, 16-bit stack forms, ...); everything else is proved.',
+   note='Trusted: z3; liftvc/den.py (S-ir); specs/x86sem.py (IA-32 spec written from the SDM); flat es/cs/ss/ds, no faults (#DE excluded), single step of string instructions; register numbers sampled by class, immediates from enumeration paddings (uniformity of the lifter in immediates is assumed, not proved).',
+   ref='5 C04'),
 }
 NOT_YET = {}
 ALL = ['C%02d' % i for i in range(1, 20)]
@@ -59,7 +63,7 @@ def main():
         'hooks': {'guard': 'LRGH_MIASMX_VERIF', 'enable': 'unused: contracts are sidecar files under /verif/contracts, /repo is not instrumented',
                   'baseline_off_cmd': BASE_OFF, 'source_commits': [], 'add_only': True},
         'engines': [
-            {'name': 'liftvc', 'path': 'liftvc/', 'serves_properties': ['C05', 'C06', 'C15', 'C16', 'C11'], 'kind_free_text': 'Engine B: IR denotation den() as z3 bit-vectors; equivalence / refinement queries over all machine states'},
+            {'name': 'liftvc', 'path': 'liftvc/', 'serves_properties': ['C04', 'C05', 'C06', 'C15', 'C16', 'C11'], 'kind_free_text': 'Engine B: IR denotation den() as z3 bit-vectors; equivalence / refinement queries over all machine states'},
             {'name': 'pyvc', 'path': 'pyvc/', 'serves_properties': ['C14', 'C05'], 'kind_free_text': 'Engine A: AST -> verification conditions (symbolic execution with callee contracts), z3'},
         ],
         'checks': checks,
